@@ -26,7 +26,7 @@ class AbstractNet:
         self.pos = []        # signals read by output cells
 
 
-def gen_abstract(rng, n_gates=None, seq=True, allow_unconnected=True, allow_dangling=True, kinds=None, n_pi=None, distinct_ins=False):
+def gen_abstract(rng, n_gates=None, seq=True, allow_unconnected=True, allow_dangling=True, kinds=None, n_pi=None, distinct_ins=False, p_nodata=0.08):
     a = AbstractNet()
     a.n_pi = n_pi if n_pi is not None else rng.randint(1, 6)
     n_ff = rng.choice([0, 0, 1, 2, 3]) if seq else 0
@@ -65,10 +65,11 @@ def gen_abstract(rng, n_gates=None, seq=True, allow_unconnected=True, allow_dang
     cand = [s for s in sigs if s[0] == 'g'] or sigs
     for _ in range(n_po):
         a.pos.append(rng.choice(cand) if rng.random() < 0.8 else rng.choice(sigs))
+    # a state element may lack its data line (then it has no PPO slot and keeps whatever it is loaded with)
     for f in a.ffs:
-        f['d'] = rng.choice(sigs)
+        f['d'] = None if (allow_unconnected and rng.random() < p_nodata) else rng.choice(sigs)
     for l in a.latches:
-        l['d'] = rng.choice(sigs)
+        l['d'] = None if (allow_unconnected and rng.random() < p_nodata) else rng.choice(sigs)
     return a
 
 
@@ -111,9 +112,11 @@ def build_circuit(rng, a, fork_style=None, branchforks=None, name='rnd'):
         pon.append(n)
         readers.setdefault(s, []).append((n, 0))
     for i, f in enumerate(a.ffs):
-        readers.setdefault(f['d'], []).append((ffn[i], 0))
+        if f['d'] is not None:
+            readers.setdefault(f['d'], []).append((ffn[i], 0))
     for i, l in enumerate(a.latches):
-        readers.setdefault(l['d'], []).append((lan[i], 0))
+        if l['d'] is not None:
+            readers.setdefault(l['d'], []).append((lan[i], 0))
     # io order: inputs and outputs interleaved at random (port list order)
     io = pis + pon
     if rng.random() < 0.5:
